@@ -245,7 +245,7 @@ def inherited_operation(ctx):
     variants = {'base': None, 'quiet': dict(skipped=True), 'never': dict(sampling_rate=0.0), 'always': dict(sampling_rate=1.0)}
     expect = {'base': 'save', 'quiet': 'none', 'never': 'abort', 'always': 'save'}
     for order in itertools.permutations(sorted(variants), 3):
-        for register_late in (False, True):
+        for register_late, register_base in ((False, False), (True, False), (False, True)):
             with open_box('memory') as box:
                 spy = SpyCassette(box.cassette)
                 rec = TapeRecorder(spy)
@@ -253,6 +253,8 @@ def inherited_operation(ctx):
                 rec.enable_recording()
                 b = Built(dict(table_prog('return'), uid=924000), rec, World(5, raise_rate=0.0))
                 classes = {'base': b.cls}
+                if register_base:
+                    rec.recording_params(RecordingParameters(sampling_rate=1.0))(b.cls)     # the base class has parameters of its own
                 for name in ('quiet', 'never', 'always'):
                     classes[name] = genclasses.register(type('Inh%s%d' % (name, 924000), (b.cls,), {}))
                     if not register_late:
@@ -268,11 +270,11 @@ def inherited_operation(ctx):
                     b.run('live')
                     ev = [e[0] for e in spy.log[n0:] if e[0] in ('create', 'save', 'abort')]
                     got = 'none' if not ev else ('save' if ev == ['create', 'save'] else ('abort' if ev == ['create', 'abort'] else 'other'))
-                    ctx.case(('inherited', order, register_late, k))
+                    ctx.case(('inherited', order, register_late, register_base, k))
                     ctx.count('inherited_operation_decisions')
                     if got != expect[name]:
                         ctx.violation('operation shared by inheritance: class %r decided %r, its own policy says %r' % (name, got, expect[name]),
-                                      {'order': order, 'index': k, 'registered_late': register_late})
+                                      {'order': order, 'index': k, 'registered_late': register_late, 'base_registered': register_base})
                         break
                 b.cls = base_cls
 
